@@ -307,7 +307,7 @@ def portfolio(g: Group, binary, trace=False, prop=None, engines=None, timeout=No
     return engine, parsed, time.time() - t0, log, raw
 
 
-AUX_PAT = re.compile(r'(loop_invariant_base|loop_invariant_step|loop_decreases|loop_assigns|loop_step_unwinding|\.assigns\.|\.precondition\.|unwind|no-body|recursion)')
+AUX_PAT = re.compile(r'(loop_invariant_base|loop_invariant_step|loop_decreases|loop_assigns|loop_step_unwinding|\.precondition\.|unwind|no-body|recursion)')   # function-level `.assigns.` (frame) failures are primary: the frame is part of the contract
 
 
 def classify(r):
@@ -376,7 +376,9 @@ def verify_group(ctx, g: Group):
             b3 = compile_group(ctx, g, [g.replay.small_define], '_unwound', no_loop_contracts=True)
             g.result.update(saved)
             g2 = Group(**{**{f: getattr(g, f) for f in ('name', 'harness', 'entry', 'function', 'checks', 'object_bits', 'first', 'stage1')},
-                          'cbmc_flags': list(g.cbmc_flags) + ['--unwind', str(g.fallback_unwind), '--unwinding-assertions'], 'timeout': max(g.timeout, 180)})
+                          'cbmc_flags': list(g.cbmc_flags) + ['--unwindset', ','.join('%s.%d:%d' % (g.enforce, k, g.fallback_unwind) for k in range(6)),
+                                                            '--unwind', str(max(g.fallback_unwind, 40)), '--unwinding-assertions'],
+                          'timeout': max(g.timeout, 180)})   # the global bound is for goto-instrument's own write-set loops
             e5, (res5, st5, _), dt5, log5, raw5 = portfolio(g2, b3, engines=['minisat', 'cadical'])
             f5 = [r for r in res5 if r['status'] == 'FAILURE' and classify(r) == 'primary' and 'unwind' not in r['property']]
             if f5:
